@@ -227,9 +227,9 @@ EXIT_NAMES = {
     'solve_main#10': 'rho reached rhoend (after an unsuccessful step)',
 }
 # exits that need a singular interpolation geometry (coincident / affinely dependent POINTS): the objective's answers cannot
-# produce one and no configuration of the bank does
-GEOMETRY_EXITS = {k: "needs affinely dependent interpolation points; no configuration found reaches it"
-                  for k in ('add_new_direction_while_growing#0', 'choose_point_to_replace#0', 'geometry_step#0')}
+# produce one; they are reached through the declared linear-algebra fault choice points (kind "la", cfgs.linalg_fault_cfgs),
+# so nothing is exempt any more
+GEOMETRY_EXITS = {}
 
 
 def exit_floor(report, tags, exempt=None):
@@ -419,6 +419,32 @@ def install():
         return orig_fit(self, *a, **kw)
     M.Model.interpolate_mini_models_svd = fit
 
+    # 5a. Model.solve_geom_system: the linear-algebra seam.  The package declares its own fault model for it: every caller
+    #     chain interpolate_mini_models_svd / geometry_step / choose_point_to_replace wraps it in `except LA.LinAlgError`
+    #     (a singular triangular factor).  Objective answers cannot make the point set affinely dependent, so the k-th such
+    #     call is a choice point whose non-default answer is "the factor is singular" - raised exactly as SciPy raises it.
+    #     Calls from chains that declare no handler (the poisedness diagnostic) are not choice points.
+    orig_sgs = M.Model.solve_geom_system
+
+    def solve_geom_system(self, rhs):
+        ex = CUR
+        if ex is not None:
+            fr = sys._getframe(1)
+            caller = fr.f_code.co_name
+            if caller == "lagrange_gradient" and fr.f_back is not None:
+                caller = fr.f_back.f_code.co_name
+            if caller in LA_DECLARED:
+                j = len(ex.la_calls) + 1
+                letter = ex.devs.get(("la", j), "ok")
+                ex.la_calls.append({"j": j, "caller": caller, "ncalls": len(ex.calls), "letter": letter})
+                ex.tags.add("la_site:" + caller)
+                if letter == "singular":
+                    ex.tags.add("la_fault:" + caller)
+                    import scipy.linalg
+                    raise scipy.linalg.LinAlgError("singular matrix: resolution failed at diagonal 0 (injected)")
+        return orig_sgs(self, rhs)
+    M.Model.solve_geom_system = solve_geom_system
+
     # 5b. solve_main: one call per run (hard restarts call it again)
     orig_sm = S.solve_main
 
@@ -458,6 +484,8 @@ def install():
 # ------------------------------------------------------------------------------------------------------------------
 # answer alphabet
 # ------------------------------------------------------------------------------------------------------------------
+LA_DECLARED = ("interpolate_mini_models_svd", "geometry_step", "choose_point_to_replace")
+
 FAULT_LETTERS = ("nan", "nan1", "inf", "-inf", "inf1", "1e200", "raise")
 
 
@@ -552,6 +580,7 @@ class Execution(object):
         self.calls = []
         self.ns_calls = []
         self.rng_calls = []
+        self.la_calls = []
         self.eo_calls = []
         self.eo_stack = []
         self.controllers = []
@@ -797,7 +826,7 @@ class Execution(object):
 
     def summary(self):
         return {"devs": [[k[0], k[1], v] for k, v in sorted(self.devs.items())], "ncalls": len(self.calls),
-                "n_ns": len(self.ns_calls), "n_rng": len(self.rng_calls),
+                "n_ns": len(self.ns_calls), "n_rng": len(self.rng_calls), "n_la": len(self.la_calls),
                 "memo_calls": [c["k"] for c in self.calls if c["letter"] == "memo"],
                 "sig": self.signature(), "viol": list(self.viol), "tags": sorted(self.tags),
                 "fp": self.fingerprint(), "prefix_hashes": list(self.prefix_hashes), "iters": self.iters}
@@ -853,12 +882,15 @@ def _choice_points(summ, plan, after):
     for i in range(1, summ["n_rng"] + 1):
         for a in plan.get("rng_letters", ()):
             out.append(("rng", i, a))
+    for j in range(1, summ.get("n_la", 0) + 1):
+        for a in plan.get("la_letters", ()):
+            out.append(("la", j, a))
     if after is not None:
         out = [d for d in out if _order(d) > after]
     return out
 
 
-_KIND_RANK = {"obj": 0, "ns": 1, "rng": 2}
+_KIND_RANK = {"obj": 0, "ns": 1, "rng": 2, "la": 3}
 
 
 def _order(d):
@@ -942,7 +974,7 @@ def explore(report, modname, cfg_plans, classify=None, recheck=8):
             for dv in s["devs"]:
                 letters_used[str(dv[2])] = letters_used.get(str(dv[2]), 0) + 1
             max_calls = max(max_calls, s["ncalls"])
-            n_choice += s["ncalls"] + s["n_ns"] + s["n_rng"]
+            n_choice += s["ncalls"] + s["n_ns"] + s["n_rng"] + (s.get("n_la", 0) if plan.get("la_letters") else 0)
             for clause, detail in s["viol"]:
                 viol_raw.append((clause, detail, cfg, s["devs"]))
             if len(samples) < 3 and (n_exec in (1, 2) or d > 0 or s["viol"]):
